@@ -5,6 +5,7 @@
 #include "simulator/nat.hpp"
 #include "simulator/packet.hpp"
 #include "simulator/http_server.hpp"
+#include "simulator/http_proxy.hpp"
 #include <map>
 #include <memory>
 #include <array>
@@ -194,7 +195,11 @@ struct script_config : configuration
 	chrono::high_resolution_clock::duration hostname_lookup(asio::ip::address const&, std::string name
 		, std::vector<asio::ip::address>& result, boost::system::error_code& ec) override
 	{
-		long long id = name.size() > 4 ? ll(name.substr(4)) : -1;
+		// "host<digits>" is host number <digits>; any other name is unknown
+		long long id = -1;
+		if (name.size() > 4 && name.size() <= 13 && name.compare(0, 4, "host") == 0
+			&& name.find_first_not_of("0123456789", 4) == std::string::npos)
+			id = ll(name.substr(4));
 		auto it = hosts.find(id);
 		if (it == hosts.end()) { ec = boost::asio::error::host_not_found; return dur(100000000); }
 		result = it->second.addrs;
@@ -231,6 +236,7 @@ struct runner
 	std::map<long long, std::unique_ptr<tcps::resolver>> rslvs;
 	std::map<long long, long long> obj_node;
 	std::map<long long, std::unique_ptr<sim::http_server>> https;
+	std::map<long long, std::unique_ptr<sim::http_proxy>> proxies;
 	std::string pcap_path;
 
 	static std::string unhex(std::string const& h)
@@ -639,6 +645,8 @@ struct runner
 		}
 		else if (c == "http_stall") https.at(arg(1))->register_stall_handler(unhex(t[k + 2]));
 		else if (c == "http_stop") https.at(arg(1))->stop();
+		else if (c == "proxy_new") proxies[arg(1)].reset(new sim::http_proxy(node(arg(2)), std::uint16_t(arg(3))));
+		else if (c == "proxy_stop") proxies.at(arg(1))->stop();
 		else if (c == "tcp_write_bytes")
 		{
 			long long h = arg(3);
@@ -737,7 +745,7 @@ struct runner
 			else op(l, 1);
 		}
 		// tear down: objects first, then nodes, then the simulation (flushes the capture)
-		https.clear(); rslvs.clear(); socks.clear(); accs.clear(); udpsocks.clear(); timers.clear();
+		proxies.clear(); https.clear(); rslvs.clear(); socks.clear(); accs.clear(); udpsocks.clear(); timers.clear();
 		nodes.clear(); ios.reset(); sim.reset();
 		if (!pcap_path.empty())
 		{
